@@ -69,13 +69,43 @@ def check(ctx):
             failures.append({"case": ln, "check": "gate_on_syntax_errors",
                              "detail": {"text": t, "syntax_errors": fa.get("clerrors", "")[:200], "sema": c[:120]},
                              "guards": set(), "model_agrees": True, "replay_how": "echo '<input>' | oq3-run sema"})
+    # the gate over the include tree: a diagnostic in ANY transitively included file skips analysis
+    import json
+    BAD = ["int = ;", "\"unterminated", "0b;", "x = /* open", "1e;", "qubit[ q;", "OPENQASM 3.x;"]
+    icases, expect = [], []
+    for depth in (1, 2, 3, 4):
+        for bad_at in range(0, depth + 1):            # 0 = the main file, depth = the deepest file; plus: no error
+            for bad in BAD[: (3 if q else len(BAD))] + [None]:
+                names = [f"f{k}.inc" for k in range(1, depth + 1)]
+                texts_ = []
+                for k in range(depth + 1):
+                    body = [f"int v{k} = {k};"]
+                    if k < depth:
+                        body.insert(rnd.randint(0, 1), f'include "{names[k]}";')
+                    if bad is not None and k == bad_at:
+                        body.insert(rnd.randint(0, len(body)), bad)
+                    texts_.append("\n".join(body) + "\n")
+                files = {names[k - 1]: texts_[k] for k in range(1, depth + 1)}
+                icases.append({"id": f"g{len(icases)}", "files": files, "main": texts_[0], "search": None, "env": None})
+                expect.append(bad is not None)
+    iout = C.run_impl(ctx, "include", [json.dumps(c) for c in icases], tag="gi")
+    ninc = 0
+    for c, e, o in zip(icases, expect, iout):
+        if PL.canon_panic(o) and not e:
+            continue                                   # a panic of the analysis proper: C03's business
+        ninc += 1
+        if o.startswith("SYNTAX-ERRORS") != e:         # incl.: analysis ran (and panicked) although a file has a diagnostic
+            failures.append({"case": json.dumps(c), "check": "gate_over_include_tree",
+                             "detail": {"files": c["files"], "main": c["main"], "diagnostic_expected_somewhere": e, "result": o[:300]},
+                             "guards": set(), "model_agrees": True,
+                             "replay_how": "echo '<case json>' | /verif/harness/target/debug/oq3-run include"})
     failures.sort(key=lambda f: len(f["case"]))
     C.decide(ctx, failures, C.load_findings("C11"))
     ctx.coverage.update({
         "evaluations": len(mal) + ngate, "distinct_nontrivial": nontriv,
-        "rule": "well-formed lexeme sequences with one malformed lexeme of each class spliced at a lexeme boundary (non-trivial = a lexer diagnostic whose token range meets the malformed lexeme); plus malformed texts, generated programs and random texts through parse_check_lex and the semantic entry point to test the gates",
+        "rule": "well-formed lexeme sequences with one malformed lexeme of each class spliced at a lexeme boundary (non-trivial = a lexer diagnostic whose token range meets the malformed lexeme); plus malformed texts, generated programs and random texts through parse_check_lex and the semantic entry point to test the gates; plus chains of real include files of depth 1-4 with a lexical or syntactic error at each level (or none): analysis must be skipped exactly when some file has one",
         "traces_validated_against_impl": len(mal) if ctx.lake_ok else 0,
-        "malformed_classes": classes, "gate_cases": ngate, "correspondence_disagreements": ndis,
+        "malformed_classes": classes, "gate_cases": ngate, "include_tree_gate_cases": ninc, "correspondence_disagreements": ndis,
         "samples": [{"text": mal[i]["text"][:100], "class": mal[i]["class"]} for i in (0, len(mal) - 1)],
     })
     return C.finish(ctx, trusted=C.TRUSTED_COMMON + [
